@@ -68,13 +68,13 @@ def MulPtShape (env : Env) (N : Nat) (big : Bool) (cd ca : DCt) (pt : Pt) : Prop
 /-- what a call needs beyond the metadata run, at the pool where it is executed -/
 def XAdm (env : Env) (N r : Nat) (mk : MulKey) (ak : AutKeys) (s : List Poly) (Uc Ua : ℚ) (pool : DPool) : XOp → Prop
   | .lin op => op.PtsOK env N
-  | .mul d a b => ∀ cd ca cb, pool[d]? = some cd → pool[a]? = some ca → pool[b]? = some cb →
+  | .mul d a b => ∀ cd ca cb, pool[d]? = some cd → pool[a]? = some ca → pool[b]? = some cb → ∀ m, mulInto env cd.ct ca.ct cb.ct = .ok m →
       ∀ q, mulCtParams env cd.ct ca.ct cb.ct = .ok q → MulAdm env N r s Uc cd ca cb (dMulInto env N mk cd ca cb) q
-  | .mulAssign d a => ∀ cd ca, pool[d]? = some cd → pool[a]? = some ca →
+  | .mulAssign d a => ∀ cd ca, pool[d]? = some cd → pool[a]? = some ca → ∀ m, mulInto env cd.ct cd.ct ca.ct = .ok m →
       ∀ q, mulCtParams env cd.ct cd.ct ca.ct = .ok q → MulAdm env N r s Uc cd cd ca (dMulInto env N mk cd cd ca) q
-  | .square d a => ∀ cd ca, pool[d]? = some cd → pool[a]? = some ca →
+  | .square d a => ∀ cd ca, pool[d]? = some cd → pool[a]? = some ca → ∀ m, squareInto env cd.ct ca.ct = .ok m →
       ∀ q, mulCtParams env cd.ct ca.ct ca.ct = .ok q → MulAdm env N r s Uc cd ca ca (dSquareInto env N mk cd ca) q
-  | .squareAssign d => ∀ cd, pool[d]? = some cd →
+  | .squareAssign d => ∀ cd, pool[d]? = some cd → ∀ m, squareInto env cd.ct cd.ct = .ok m →
       ∀ q, mulCtParams env cd.ct cd.ct cd.ct = .ok q → MulAdm env N r s Uc cd cd cd (dSquareInto env N mk cd cd) q
   | .mulPt d a pt pg => PtOK env N pt pg ∧ (∀ cd ca, pool[d]? = some cd → pool[a]? = some ca → MulPtShape env N mk.big cd ca pt) ∧
       (pt.size : Int) * (N * 2 ^ env.base2k * 2 ^ env.base2k) + 8 ≤ 2 ^ (bitsOf mk.big - 2)
